@@ -530,6 +530,20 @@ func (sc *scen) launchAttempt(phase string, i int, judged bool, delay time.Durat
 	}()
 }
 
+// closeInner closes the inner HTTP/1.1 server from outside. net/http's Close
+// waits for the server's Serve call to return; if the proxy's listener does
+// not honour Close that never happens, so the call gets a watchdog (the
+// scenario then goes on and the oracle sees that Serve does not return).
+func (sc *scen) closeInner() {
+	done := make(chan struct{})
+	go func() { sc.hs.Close(); close(done) }()
+	select {
+	case <-done:
+	case <-time.After(3 * time.Second):
+		sc.out.add("inner_http_server_close_did_not_return_in_3s", 1)
+	}
+}
+
 func (sc *scen) doCancel() {
 	o := sc.out
 	switch sc.spec.Mode {
@@ -547,16 +561,16 @@ func (sc *scen) doCancel() {
 		o.add("cancels_by_context", 2)
 	case "ctx-then-httpclose":
 		sc.cancel()
-		sc.hs.Close()
+		sc.closeInner()
 		o.add("cancels", 2)
 		o.add("cancels_by_context", 1)
 		o.add("cancels_by_inner_http_server_close", 1)
 	case "httpclose":
-		sc.hs.Close()
+		sc.closeInner()
 		o.add("cancels", 1)
 		o.add("cancels_by_inner_http_server_close", 1)
 	case "httpclose-then-ctx":
-		sc.hs.Close()
+		sc.closeInner()
 		sc.cancel()
 		o.add("cancels", 2)
 		o.add("cancels_by_context", 1)
@@ -930,7 +944,7 @@ func (sc *scen) cleanup() {
 	case <-sc.returned:
 	case <-time.After(3 * time.Second):
 		// a proxy that does not stop: take it down so that later batches are not disturbed
-		sc.hs.Close()
+		go sc.hs.Close()
 		sc.ln.Close()
 		select {
 		case <-sc.returned:
